@@ -9,15 +9,15 @@ from .model import *
 
 # which properties a harness kind can serve
 KIND_PROPS = {
-    "get": {"C01", "C03", "C04", "C05", "C08", "C11", "C12", "C16", "C17"},
-    "with": {"C02", "C03", "C04", "C05", "C08", "C11", "C12", "C16", "C17"},
-    "set": {"C02", "C03", "C04", "C05", "C08", "C11", "C12", "C16", "C17"},
+    "get": {"C09", "C01", "C03", "C04", "C05", "C08", "C11", "C12", "C16", "C17"},
+    "with": {"C09", "C02", "C03", "C04", "C05", "C08", "C11", "C12", "C16", "C17"},
+    "set": {"C09", "C02", "C03", "C04", "C05", "C08", "C11", "C12", "C16", "C17"},
     "setwith": {"C02", "C03", "C04", "C05", "C08"},
-    "oob_get": {"C03", "C16"},
-    "oob_with": {"C03", "C16"},
-    "oob_set": {"C03", "C16"},
-    "ctor": {"C01", "C06", "C11", "C16"},
-    "raw": {"C06", "C11", "C16"},
+    "oob_get": {"C09", "C03", "C16"},
+    "oob_with": {"C09", "C03", "C16"},
+    "oob_set": {"C09", "C03", "C16"},
+    "ctor": {"C09", "C01", "C06", "C11", "C16"},
+    "raw": {"C09", "C06", "C11", "C16"},
     "consts": {"C06"},
     "rt": {"C06", "C11"},
     "rb": {"C02", "C03", "C04", "C05", "C08"},
@@ -28,8 +28,8 @@ KIND_PROPS = {
     "step": {"C13", "C11", "C16"},
     "build": {"C13", "C16"},
     "chain": {"C13"},
-    "enum_raw": {"C07", "C10", "C16"},
-    "enum_new": {"C07", "C10", "C16"},
+    "enum_raw": {"C10x", "C07", "C10", "C16"},
+    "enum_new": {"C10x", "C07", "C10", "C16"},
     "enum_rt": {"C07"},
     "debug": {"C19"},
 }
